@@ -89,7 +89,9 @@ def anneal_temperature_range(model, start_flip_prob=0.5,
         variables = set(v for k in model for v in k)
 
     # if the model is empty or just an offset
-    if not variables:
+    # ``_variables`` is an upper bound until the model is refreshed, so also
+    # check that there is at least one nonconstant term
+    if not variables or not any(k for k in model):
         return 0, 0
 
     factor = 2  # should be this (I think)
